@@ -15,7 +15,7 @@ RULE = ('streams from an independent encoder (harness/streams.py): payloads 1..1
         'Flow Control (reference frame from the extracted Coq Spec: ContinueToSend, configured blocksize/stmin, padding, id, prefix) '
         'after the First Frame and after every blocksize-th Consecutive Frame that does not complete the message; no error. '
         'Every case is replayed on the extracted model. non-trivial = distinct cases'
-        " 30 % of the multi-frame cases run full duplex: the receiver transmits a multi-frame message of its own meanwhile (queued before or during the reception, paced by the peer's STmin); only its Flow Control frames are counted. A quarter of the others alternate receive-only and transmit-only process() calls over each batch."
+        " 30 % of the multi-frame cases run full duplex: the receiver transmits a multi-frame message of its own meanwhile (queued before or during the reception, paced by the peer's STmin); only its Flow Control frames are counted. A quarter of the others alternate receive-only and transmit-only process() calls over each batch, some with stop_sending() called in between (nothing is being sent: the reception is untouched)."
         ' (reparam) tx_padding / tx_data_min_length changed with params.set() between two receptions: the Flow Control of the second is the reference frame of the new parameters.')
 ASSUME = ['frames of one message are processed within rx_consecutive_frame_timeout of each other (gaps of 0 or 0.45 x the timeout)']
 
@@ -49,6 +49,7 @@ def gen_case(rng, tier):
     # reception and transmission in separate calls: a receive-only pass stops at every frame that asks for a Flow Control, the
     # transmit-only pass that follows emits it, the next receive-only pass reads on
     splitp = (not slow) and (not duplex) and len(frames) < 200 and rng.random() < 0.25
+    stopper = splitp and rng.random() < 0.4
     own_fc_at = None
     own_len = p.get('tx_data_length', 8) + rng.choice([1, 20, 100])      # always a multi-frame message of its own
     own_st = rng.choice([0, 1, 1, 2])
@@ -72,7 +73,10 @@ def gen_case(rng, tier):
         i += k
         if splitp:
             for _ in range(k + 1):
-                ops.append([0, 'proc', 1, 0]); ops.append([0, 'proc', 0, 1])
+                ops.append([0, 'proc', 1, 0])
+                if stopper and rng.random() < 0.4:
+                    ops.append([0, 'stop_sending'])     # the user aborts transmissions (there is none): the reception and its Flow Control are untouched
+                ops.append([0, 'proc', 0, 1])
         else:
             ops.append([0, 'proc', 1, 1])
         if duplex:
